@@ -218,10 +218,6 @@ class World:
         self.counter = 0
 
 
-def strip_marks(html):
-    return re.sub(r'marks:[^;}]*;?', '', html)
-
-
 def _base_url(doc):
     repo = os.environ.get('VERIF_REPO', '/repo')
     return 'file://' + repo + '/tests/resources/'
@@ -269,9 +265,8 @@ def run_step(world, step):
             world.cache = {}
         cache = world.cache
     elif step['cache'] == 'disk':
-        # one folder per render: a folder shared by two DiskCache objects is the finding c19:diskcache-del-removes-shared-folder
-        _UNIQUE[0] += 1
-        cache = os.path.join(world.tmpdir, 'cache%d' % _UNIQUE[0])
+        # ONE folder for every render of the interpreter that asks for a disk cache (10a3ba4: caches sharing a folder)
+        cache = os.path.join(world.tmpdir, 'diskcache')
     if 'pdf_identifier' in options:
         options['pdf_identifier'] = options['pdf_identifier'].encode()
     if sheets:
@@ -311,15 +306,18 @@ def run_step(world, step):
                 document = document.copy(document.pages if step['doc'] % 2 else 'all')
             ret = document.write_pdf(target, zoom=zoom, **options)
             if step.get('rewrite'):
-                # the same Document written a second time must give the same bytes
+                # the same Document written a second time must give the same bytes, also when it was written with other
+                # options in between (full fonts, another dpi, forms: 5894aac, 6683f8f, 5fea29c)
+                if step['rewrite'] == 'other-options-between':
+                    other = dict(options)
+                    other['full_fonts'] = not options.get('full_fonts', False)
+                    other['dpi'] = 20 if options.get('dpi') != 20 else 200
+                    other['uncompressed_pdf'] = not options.get('uncompressed_pdf', False)
+                    document.write_pdf(None, zoom=2, **other)
                 again = document.write_pdf(None, zoom=zoom, **options)
                 obs['rewrite_same'] = (hashlib.sha256(again).hexdigest() ==
                                        hashlib.sha256(ret if sink == 'bytes' else (
                                            target.getvalue() if sink == 'fileobj' else open(path, 'rb').read())).hexdigest())
-                if not obs['rewrite_same'] and 'marks:' in doc['html']:
-                    # mechanism test for the listed finding: without the marks the same Document rewrites identically
-                    d2 = HTML(string=strip_marks(doc['html']), base_url=base, media_type=media).render(font_config=fc, **options)
-                    obs['rewrite_same_without_marks'] = d2.write_pdf(None, zoom=zoom, **options) == d2.write_pdf(None, zoom=zoom, **options)
         if sink == 'bytes':
             pdf = ret
         elif sink == 'fileobj':
@@ -369,15 +367,16 @@ def run_history(world_args, history):
 
 CACHE_URLS = ['mem://logo.png', 'mem://exif.jpg', 'mem://pattern.svg', 'mem://garbage', 'mem://fail', 'mem://blue.jpg']
 CACHE_FILES = ['logo_small.png', 'not-optimized-exif.jpg', 'pattern.svg', None, None, 'blue.jpg']
-CACHE_VARIANTS = [
+CACHE_KEYS = [                                     # the part of a request that is in the dictionary key
     dict(),                                        # 0 defaults: orientation from-image
     dict(orientation='none'),                      # 1
     dict(orientation=(90, False)),                 # 2
     dict(options={'dpi': 96}),                     # 3
     dict(options={'optimize_images': True}),       # 4
     dict(options={'jpeg_quality': 30}),            # 5
-    dict(forced_mime_type='image/svg+xml'),        # 6
+    dict(orientation=(0, True), options={'optimize_images': True, 'jpeg_quality': 60}),   # 6
 ]
+CACHE_MIMES = [None, 'image/svg+xml', 'image/*']   # forced_mime_type: not in the key
 CACHE_RATIOS = [2, 4]          # the model's ratio r stands for dpi_ratio = 1/r; 1 = no down-sampling
 _CACHE_STATE = {}
 
@@ -402,13 +401,13 @@ def _fetcher_for(counter):
     return fetcher
 
 
-def _load(cache, fetcher, u, v):
+def _load(cache, fetcher, u, k, m):
     from weasyprint import DEFAULT_OPTIONS
     from weasyprint.images import get_image_from_uri
-    kw = dict(CACHE_VARIANTS[v])
+    kw = dict(CACHE_KEYS[k])
     options = dict(DEFAULT_OPTIONS)
     options.update(kw.pop('options', {}))
-    return get_image_from_uri(cache, fetcher, options, CACHE_URLS[u], **kw)
+    return get_image_from_uri(cache, fetcher, options, CACHE_URLS[u], forced_mime_type=CACHE_MIMES[m], **kw)
 
 
 def _img_desc(img):
@@ -439,51 +438,47 @@ def _emit(img, r):
 
 
 def cache_table():
-    """Values of every data term (u, v, rs) measured with cold, isolated calls: tget[(u,v,rs)] = id of the object's
-    description after the re-samplings rs; temit[(u,v,rs+[flag])] = id of the embedded object (flag 1: a ratio-1 emit
-    on that data; flag 0: the emit that produced the last re-sampling); -1 when nothing is embedded."""
+    """Values of every data term (u, k, m, rs) measured with cold, isolated calls: tget[(u,k,m,[])] = id of the loaded
+    object's description; temit[(u,k,m,[])] = id of the object embedded with ratio 1, temit[(u,k,m,[r])] with ratio 1/r;
+    -1 when nothing is embedded (SVG)."""
     if 'table' in _CACHE_STATE:
         return _CACHE_STATE['table']
-    import itertools
     fails, ok, tget, temit = [], [], [], []
     for u in range(len(CACHE_URLS)):
         try:
             _fetcher_for([])(CACHE_URLS[u])
         except OSError:
             fails.append(u)
-    seqs = [()] + [(a,) for a in CACHE_RATIOS] + list(itertools.product(CACHE_RATIOS, CACHE_RATIOS))
     for u in range(len(CACHE_URLS)):
-        for v in range(len(CACHE_VARIANTS)):
-            if _load({}, _fetcher_for([]), u, v) is None:
-                continue
-            ok.append([u, v])
-            for rs in seqs:
-                img = _load({}, _fetcher_for([]), u, v)
-                last = None
-                for r in rs:
-                    last = _emit(img, r)
-                tget.append([[u, v, list(rs)], _vid(_img_desc(img))])
-                if rs:
-                    temit.append([[u, v, list(rs) + [0]], -1 if last is None else _vid(last)])
-                one = _emit(img, 1)
-                temit.append([[u, v, list(rs) + [1]], -1 if one is None else _vid(one)])
+        for k in range(len(CACHE_KEYS)):
+            for m in range(len(CACHE_MIMES)):
+                if _load({}, _fetcher_for([]), u, k, m) is None:
+                    continue
+                ok.append([u, k, m])
+                tget.append([[u, k, m, []], _vid(_img_desc(_load({}, _fetcher_for([]), u, k, m)))])
+                for r in [1] + CACHE_RATIOS:
+                    e = _emit(_load({}, _fetcher_for([]), u, k, m), r)
+                    temit.append([[u, k, m, [] if r == 1 else [r]], -1 if e is None else _vid(e)])
     _CACHE_STATE['table'] = dict(fails=fails, ok=ok, tget=tget, temit=temit)
     return _CACHE_STATE['table']
 
 
 def cache_history(case):
-    """case: dict(history=[['get', u, v] | ['emit', u, r]]) on ONE dictionary.  Observations: for get [object index in
-    order of first appearance or -1, value id]; for emit the value id or -1; and the number of fetcher calls."""
+    """case: dict(history=[['get', u, k, m] | ['emit', u, k, r]]) on ONE dictionary.  Observations: for get [object index
+    in order of first appearance or -1, value id]; for emit the value id or -1 (emit uses the object the last get of that
+    (u, k) returned, as a render does); and the number of fetcher calls."""
     import logging
     logging.getLogger('weasyprint').setLevel(logging.CRITICAL + 1)
     cache = {}
     calls = []
     fetcher = _fetcher_for(calls)
     objs = []
+    held = {}
     obs = []
     for op in case['history']:
         if op[0] == 'get':
-            img = _load(cache, fetcher, op[1], op[2])
+            img = _load(cache, fetcher, op[1], op[2], op[3])
+            held[(op[1], op[2])] = img
             if img is None:
                 obs.append(['get', -1, -1])
             else:
@@ -495,8 +490,8 @@ def cache_history(case):
                     i = len(objs) - 1
                 obs.append(['get', i, _vid(_img_desc(img))])
         else:
-            img = cache.get(CACHE_URLS[op[1]])
-            e = _emit(img, op[2]) if img is not None else None
+            img = held.get((op[1], op[2]))
+            e = _emit(img, op[3]) if img is not None else None
             obs.append(['emit', -1 if e is None else _vid(e)])
     out = dict(obs=obs, nfetch=len(calls), fetched=calls)
     out.update(cache_table())
@@ -776,26 +771,16 @@ def zoom_render(case):
     for z in case['zooms']:
         pdf = HTML(string=case['html'], base_url=_base_url(None)).write_pdf(zoom=z, uncompressed_pdf=True, **opts)
         out['fresh'].append(read_pdf_geometry(pdf))
-    # one Document written at every zoom.  With crop/cross marks every write adds a layer (listed finding): the strict
-    # comparison is then made on the document without marks, and the effect of the marks is recorded separately.
-    has_marks = 'marks:' in case['html']
-    html = strip_marks(case['html']) if has_marks else case['html']
-    document = HTML(string=html, base_url=_base_url(None)).render(**opts)
+    # one Document written at every zoom
+    document = HTML(string=case['html'], base_url=_base_url(None)).render(**opts)
     out['layout'] = layout_fingerprint(document)
     for z in case['zooms']:
         pdf = document.write_pdf(zoom=z, uncompressed_pdf=True, **opts)
         g = read_pdf_geometry(pdf)
         out['same_document'].append({'pages': [{k: p[k] for k in ('MediaBox', 'rest', 'ctm')} for p in g['pages']]})
-    out['same_document_is_without_marks'] = has_marks
-    if has_marks:
-        out['fresh_without_marks'] = [read_pdf_geometry(HTML(string=html, base_url=_base_url(None)).write_pdf(
-            zoom=z, uncompressed_pdf=True, **opts)) for z in case['zooms']]
-        d2 = HTML(string=case['html'], base_url=_base_url(None)).render(**opts)
-        w = [d2.write_pdf(zoom=1, uncompressed_pdf=True, **opts) for _ in range(2)]
-        out['marks_accumulate'] = w[0] != w[1]
     # keep the result small: identical op lists are sent once
     seen = {}
-    for group in (out['fresh'], out['same_document'], out.get('fresh_without_marks', [])):
+    for group in (out['fresh'], out['same_document']):
         for g in group:
             for p in g['pages']:
                 key = json.dumps(p['rest'])
@@ -854,17 +839,11 @@ def copy_render(case):
         logging.getLogger(name).setLevel(logging.CRITICAL + 1)
     import pdfread
     from weasyprint import HTML
-    has_marks = 'marks:' in case['html']
-    marks_effect = None
-    if has_marks:      # listed finding: each write adds a marks layer; strict comparison on the document without marks
-        d0 = HTML(string=case['html'], base_url=_base_url(None)).render()
-        w = [d0.write_pdf(pdf_identifier=b'c19'), d0.copy(d0.pages[:1]).write_pdf(pdf_identifier=b'c19'), d0.write_pdf(pdf_identifier=b'c19')]
-        marks_effect = w[0] != w[2]
-    document = HTML(string=strip_marks(case['html']) if has_marks else case['html'], base_url=_base_url(None)).render()
+    document = HTML(string=case['html'], base_url=_base_url(None)).render()
     full = document.write_pdf(pdf_identifier=b'c19', uncompressed_pdf=True)
     d = pdfread.parse(full)
     fullp = [([_num(x) for x in d.resolve(p['MediaBox'])],) + _page_text_ops(d, p) for p in d.pages()]
-    out = dict(npages=len(document.pages), full=fullp, copies=[], marks_effect=marks_effect)
+    out = dict(npages=len(document.pages), full=fullp, copies=[])
     before = layout_fingerprint(document)
     for sel in case['sels']:
         sel = [i % len(document.pages) for i in sel] if document.pages else []
@@ -1081,6 +1060,21 @@ def probe(case):
         finally:
             weasyprint.datetime = old
         return dict(depends_on_clock=a != b, same_clock_same_bytes=a == a2)
+    if name == 'attachment-reuse':
+        import tempfile
+        from weasyprint import Attachment
+        path = os.path.join(tempfile.mkdtemp(prefix='c19-'), 'a.txt')
+        open(path, 'w').write('hello')
+        atts = [Attachment(filename=path)]
+        try:
+            a = HTML(string='<p>abc').write_pdf(attachments=atts, **ident)
+            b = HTML(string='<p>abc').write_pdf(attachments=atts, **ident)
+            d = HTML(string='<p>abc').render()
+            c = [d.write_pdf(attachments=atts, **ident) for _ in range(2)]
+            return dict(raises=False, same=a == b == c[0] == c[1] and b'hello' in HTML(string='<p>abc').write_pdf(
+                attachments=atts, uncompressed_pdf=True, **ident))
+        except Exception as exc:
+            return dict(raises=True, same=False, exc=_exc_info(exc))
     if name == 'diskcache':
         import tempfile
         folder = os.path.join(tempfile.mkdtemp(prefix='c19-'), 'cache')
@@ -1142,16 +1136,6 @@ def reuse_history(case, tmpdir):
     fc = FontConfiguration() if case['fc'] == 'shared' else None
     cs = CounterStyle() if case['cs'] == 'shared' else None
     calls_seen = []
-    # attachments given as file names / paths are wrapped in Attachment(guess) whose dates are datetime.now() (listed finding
-    # c19:attachment-dates-from-clock, witnessed by the probes): the clock is frozen here so that it does not mask the rest
-    import datetime as _dt
-    import weasyprint as _wp
-
-    class _Frozen(_dt.datetime):
-        @classmethod
-        def now(cls, tz=None):
-            return _dt.datetime(2020, 2, 2, 2, 2, 2)
-    _wp.datetime = _Frozen
 
     def fetcher(url, *a, **k):
         calls_seen.append(url)
@@ -1186,7 +1170,7 @@ def reuse_history(case, tmpdir):
     snap0 = dict(sheets=_items_snapshot(sheets), attachments=_items_snapshot(attachments),
                  options=digest({k: v for k, v in options.items() if k not in ('stylesheets', 'attachments')}),
                  options_keys=sorted(options), css=[css_snapshot(x) for x in sheets if hasattr(x, 'matcher')],
-                 att_objects=[digest({k: v for k, v in vars(x).items() if k != 'source'}) for x in (attachments or []) if isinstance(x, Attachment)])
+                 att_objects=[digest({k: v for k, v in vars(x).items() if k != 'md5'}) for x in (attachments or []) if isinstance(x, Attachment)])
     html = HTML(string=case['html'], base_url=base, **html_kw)
     html0 = html_snapshot(html)
     out = {'calls': [], 'containers': [], 'registry': []}
@@ -1210,7 +1194,7 @@ def reuse_history(case, tmpdir):
         snap = dict(sheets=_items_snapshot(sheets), attachments=_items_snapshot(attachments),
                     options=digest({k2: v for k2, v in options.items() if k2 not in ('stylesheets', 'attachments')}),
                     options_keys=sorted(options), css=[css_snapshot(x) for x in sheets if hasattr(x, 'matcher')],
-                    att_objects=[digest({k2: v for k2, v in vars(x).items() if k2 != 'source'}) for x in (attachments or []) if isinstance(x, Attachment)])
+                    att_objects=[digest({k2: v for k2, v in vars(x).items() if k2 != 'md5'}) for x in (attachments or []) if isinstance(x, Attachment)])
         out['containers'].append({
             'sheet_kinds': ['parsed' if hasattr(x, 'matcher') else 'raw' for x in sheets],
             'sheets_same': snap['sheets'] == snap0['sheets'] and options['stylesheets'] is sheets,
